@@ -306,69 +306,40 @@ def r8_9(ctx):
     ctx.check("segment_count = len(pulse_segments)" in norm(p.node), p.fq, "segment_count = len(pulse_segments)", p.where, "offset is taken modulo the pattern length", "segment_count is not the pattern length")
 
 
-def _bar_facts(ctx, f):
-    """Structural facts about Bar.__rich_console__ (names are discovered, not assumed)."""
-    from ..linear import lin, show, eq as lin_eq
-    assigns = {}   # name -> [value]
-    augs = {}      # name -> [(value, enclosing-if-test or None)]
-
-    def visit(stmts, guard):
-        for st in stmts:
-            if isinstance(st, ast.Assign) and len(st.targets) == 1:
-                t = st.targets[0]
-                if isinstance(t, ast.Name):
-                    assigns.setdefault(t.id, []).append(st.value)
-                elif isinstance(t, ast.Tuple) and all(isinstance(e, ast.Name) for e in t.elts):
-                    for i, e in enumerate(t.elts):
-                        assigns.setdefault(e.id, []).append(("unpack", st.value, i))
-            elif isinstance(st, ast.AugAssign) and isinstance(st.target, ast.Name):
-                augs.setdefault(st.target.id, []).append((st.op, st.value, guard))
-            elif isinstance(st, ast.If):
-                visit(st.body, st.test)
-                visit(st.orelse, ast.UnaryOp(op=ast.Not(), operand=st.test))
-    visit(f.node.body, None)
-    return assigns, augs
-
-
 def r8_10(ctx):
-    from ..linear import lin, show, eq as lin_eq, _add
+    from ..yieldpaths import Enumerator, Unsupported, consistent, resolve, show
     from .c07 import _cell_width_fn
-    ctx.rule("R8.10", "block bar (Bar): begin and end are converted to eighths of a cell by one monotone formula f(width * 8 * EDGE / size) (same rounding function for both edges), each is split into whole cells and eighths by // 8 and % 8, prefix and body are cells + one 1-cell glyph when eighths > 0 (i.e. ceil(e/8) cells), the early exit guarantees begin < end, __init__ clamps begin >= 0 and end <= size, the width is capped by options.max_width, and the emitted text prefix + body[len(prefix):] + pad has length len(prefix) + max(0, len(body) - len(prefix)) + (width - len(body)) = width because ceil(p/8) <= ceil(b/8) <= width")
+    from .common import inline_helpers_in_function
+    ctx.rule("R8.10", "block bar (Bar), decided on the path normal form with helpers and temporaries inlined: on every path with begin < end the emitted text is P + B[len(P):] + ' ' * (width - len(B)) where P = glyph * (p // 8) [+ one glyph iff p % 8] and B = glyph * (b // 8) [+ one glyph iff b % 8] are ceil(p/8) and ceil(b/8) one-cell glyphs, p and b are the SAME rounding of width * 8 * begin / size and width * 8 * end / size (monotone, so p <= b; end <= size gives b <= 8 * width), hence len = len(P) + max(0, len(B) - len(P)) + (width - len(B)) = width; with begin >= end the text is ' ' * width; __init__ clamps begin >= 0, end <= size; width is capped by options.max_width")
     f = ctx.repo.fn("bar:Bar.__rich_console__")
     m = f.module
-    assigns, augs = _bar_facts(ctx, f)
     cw = _cell_width_fn(ctx)
+    fnode = inline_helpers_in_function(f)
+    try:
+        en = Enumerator(fnode)
+        wdef = en.defs.pop("width", None)
+        P = [resolve(p_, keep=("width",)) for p_ in en.run()]
+    except Unsupported as u:
+        raise AnalysisError(f"Bar.__rich_console__: statement outside the path normal form ({u}); the width clause cannot be decided")
+    ctx.check(wdef is not None and isinstance(wdef, ast.Call) and norm(wdef.func) == "min" and any(norm(z) == "options.max_width" for z in wdef.args), f.fq, norm(wdef) if wdef is not None else "?", f.where, "bar width capped by options.max_width", "Bar's width is not min(..., options.max_width)")
 
-    def mentions(e, attr):
-        return any(isinstance(x, ast.Attribute) and x.attr == attr and isinstance(x.value, ast.Name) and x.value.id == "self" for x in ast.walk(e))
+    def one_cell_glyph(e):
+        if isinstance(e, ast.Constant) and isinstance(e.value, str):
+            return len(e.value) == 1 and cw(e.value) == 1
+        if isinstance(e, ast.Name) and m.module_const(e.id) is not None:
+            return one_cell_glyph(m.module_const(e.id))
+        return False
 
-    def single(name):
-        v = assigns.get(name, [])
-        return v[0] if len(v) == 1 and name not in augs else None
+    def table_ok(e):
+        if not (isinstance(e, ast.Subscript) and isinstance(e.value, ast.Name)):
+            return False
+        t = m.module_const(e.value.id)
+        return isinstance(t, (ast.List, ast.Tuple)) and len(t.elts) >= 8 and all(one_cell_glyph(x) for x in t.elts)
 
-    edges = {}
-    for name, vals in assigns.items():
-        for v in vals:
-            if isinstance(v, ast.AST):
-                for attr in ("begin", "end"):
-                    if mentions(v, attr):
-                        edges.setdefault(attr, []).append((name, v))
-    if len(edges.get("begin", [])) != 1 or len(edges.get("end", [])) != 1:
-        raise AnchorVanished("Bar.__rich_console__: expected exactly one local computed from self.begin and one from self.end")
-    (pn, pv), (bn, bv) = edges["begin"][0], edges["end"][0]
-
-    def template(v, attr):
-        class T(ast.NodeTransformer):
-            def visit_Attribute(self, node):
-                if node.attr == attr and isinstance(node.value, ast.Name) and node.value.id == "self":
-                    return ast.Name(id="EDGE", ctx=ast.Load())
-                return self.generic_visit(node)
-        import copy
-        return T().visit(copy.deepcopy(v))
-
-    tp, tb = template(pv, "begin"), template(bv, "end")
-    ctx.check(norm(tp) == norm(tb), f.fq, f"{norm(pv)} / {norm(bv)}", f.where, f"both edges use `{norm(tp)}`",
-              f"the begin edge is computed as `{norm(pv)}` but the end edge as `{norm(bv)}`: with different rounding or scaling the begin can land past the end, the prefix is then longer than the body and the emitted line is one cell wider than the bar's width")
+    def flat(e):
+        if isinstance(e, ast.BinOp) and isinstance(e.op, ast.Add):
+            return flat(e.left) + flat(e.right)
+        return [e]
 
     def muldiv(e, num, den, inv=False):
         if isinstance(e, ast.BinOp) and isinstance(e.op, ast.Mult):
@@ -380,88 +351,95 @@ def r8_10(ctx):
         else:
             (den if inv else num).append(norm(e))
 
-    for who, t in (("begin", tp), ("end", tb)):
-        ok = isinstance(t, ast.Call) and norm(t.func) in ("int", "round", "floor", "math.floor", "ceil", "math.ceil") and len(t.args) == 1 and not t.keywords
+    def edge_template(x):
+        """x = ROUND(width * 8 * self.<begin|end> / self.size) -> (rounding name, 'begin'|'end') or None"""
+        if not (isinstance(x, ast.Call) and norm(x.func) in ("int", "round", "floor", "math.floor", "ceil", "math.ceil") and len(x.args) == 1 and not x.keywords):
+            return None
         num, den = [], []
-        if ok:
-            muldiv(t.args[0], num, den)
-        ok = ok and sorted(num) == sorted(["width", "8", "EDGE"]) and den == ["self.size"]
-        ctx.check(ok, f.fq, norm(t), f.where, f"{who} edge = rounding(width * 8 * {who} / size): monotone in {who}, at most 8 * width when {who} <= size",
-                  f"Bar: the {who} edge `{norm(t)}` is not a rounding of width * 8 * {who} / size - the number of eighths is no longer bounded by 8 * width / monotone in the edge, so the bar can exceed its width")
+        muldiv(x.args[0], num, den)
+        for which in ("begin", "end"):
+            if sorted(num) == sorted(["width", "8", f"self.{which}"]) and den == ["self.size"]:
+                return norm(x.func), which
+        return None
 
-    def split_of(edge):
-        """names holding edge // 8 and edge % 8"""
-        cells = eighths = None
-        for name, vals in assigns.items():
-            if len(vals) != 1 or name in augs:
-                continue
-            v = vals[0]
-            if isinstance(v, tuple):
-                _, call, idx = v
-                if isinstance(call, ast.Call) and norm(call.func) == "divmod" and len(call.args) == 2 and norm(call.args[0]) == edge and norm(call.args[1]) == "8":
-                    if idx == 0:
-                        cells = name
-                    else:
-                        eighths = name
-            elif isinstance(v, ast.BinOp) and norm(v.left) == edge and norm(v.right) == "8":
-                if isinstance(v.op, ast.FloorDiv):
-                    cells = name
-                elif isinstance(v.op, ast.Mod):
-                    eighths = name
-        return cells, eighths
+    def analyse_string(parts, facts):
+        """[glyph * (X // 8)] (+ TABLE[X % 8] iff fact X % 8) -> (X node, problem or None)"""
+        if not parts or len(parts) > 2:
+            return None, f"string has {len(parts)} parts, expected glyph * cells [+ one glyph]"
+        p0 = parts[0]
+        if not (isinstance(p0, ast.BinOp) and isinstance(p0.op, ast.Mult)):
+            return None, f"`{norm(p0)}` is not glyph * cells"
+        g_, n_ = (p0.left, p0.right) if one_cell_glyph(p0.left) else (p0.right, p0.left)
+        if not one_cell_glyph(g_):
+            return None, f"`{norm(p0)}` does not repeat a one-cell glyph"
+        if not (isinstance(n_, ast.BinOp) and isinstance(n_.op, ast.FloorDiv) and norm(n_.right) == "8"):
+            return None, f"cell count `{norm(n_)}` is not <eighths> // 8"
+        X = n_.left
+        rem = f"{norm(X)} % 8"
+        has_extra = len(parts) == 2
+        if has_extra:
+            t = parts[1]
+            if not (table_ok(t) and norm(t.slice) == rem):
+                return None, f"`{norm(t)}` is not a one-cell glyph table indexed by {rem}"
+        if facts.get(rem) is not has_extra:
+            return None, f"the extra glyph is {'present' if has_extra else 'absent'} on a path where `{rem}` is {facts.get(rem)}"
+        return X, None
 
-    def one_cell_glyph(e):
-        """expression is a 1-cell string (literal or module constant) or TABLE[idx] with all entries 1 cell"""
-        if isinstance(e, ast.Constant) and isinstance(e.value, str):
-            return len(e.value) == 1 and cw(e.value) == 1
-        if isinstance(e, ast.Name) and m.module_const(e.id) is not None:
-            return one_cell_glyph(m.module_const(e.id))
-        return False
-
-    def table_ok(e, idx_name):
-        if not (isinstance(e, ast.Subscript) and isinstance(e.value, ast.Name) and norm(e.slice) == idx_name):
-            return False
-        t = m.module_const(e.value.id)
-        if t is None:
-            return False
-        return isinstance(t, (ast.List, ast.Tuple)) and len(t.elts) >= 8 and all(one_cell_glyph(x) for x in t.elts)
-
-    strings = {}
-    for who, edge in (("prefix", pn), ("body", bn)):
-        cells, eighths = split_of(edge)
-        ctx.check(cells is not None and eighths is not None, f.fq, f"{edge} // 8, {edge} % 8", f.where, f"{who} eighths split into whole cells `{cells}` and a remainder `{eighths}` by 8",
-                  f"Bar: `{edge}` is not split into whole cells and eighths with // 8 and % 8 (or divmod(.., 8)): the eighths index can leave 0..7 or the cell count no longer matches")
-        if cells is None or eighths is None:
+    n_paths = 0
+    templates = set()
+    for p_ in P:
+        ys = []
+        for e in p_:
+            if e[0] == "yield":
+                try:
+                    c = ast.parse(e[1], mode="eval").body
+                except SyntaxError:
+                    c = None
+                if isinstance(c, ast.Call) and norm(c.func) == "Segment" and c.args:
+                    ys.append(c)
+        facts = {e[1]: e[2] for e in p_ if e[0] == "cond"}
+        if len(ys) != 1:
+            ctx.violation(f.fq, show(p_)[:200], f.where, f"a path through Bar.__rich_console__ emits {len(ys)} text segments instead of one line")
             continue
-        found = None
-        for name, vals in assigns.items():
-            if len(vals) == 1 and isinstance(vals[0], ast.BinOp) and isinstance(vals[0].op, ast.Mult):
-                l, r = vals[0].left, vals[0].right
-                if (norm(r) == cells and one_cell_glyph(l)) or (norm(l) == cells and one_cell_glyph(r)):
-                    a = augs.get(name, [])
-                    if len(a) == 1 and isinstance(a[0][0], ast.Add) and a[0][2] is not None and norm(a[0][2]) == eighths and table_ok(a[0][1], eighths):
-                        found = name
-                    elif not a:
-                        found = None
-        ctx.check(found is not None, f.fq, f"{who} string", f.where, f"`{found}` is {cells} one-cell glyphs plus one one-cell glyph iff {eighths} > 0, i.e. ceil({edge} / 8) cells",
-                  f"Bar: the {who} string is not `glyph * {cells}` extended by exactly one one-cell glyph when `{eighths}` is non-zero: its cell length is no longer ceil({edge}/8)")
-        if found:
-            strings[who] = found
-
-    # early exit: begin < end afterwards
-    guard = None
-    for st in f.node.body:
-        if isinstance(st, ast.If) and isinstance(st.test, ast.Compare) and len(st.test.ops) == 1 and st.body and isinstance(st.body[-1], ast.Return):
-            l, op, r = norm(st.test.left), st.test.ops[0], norm(st.test.comparators[0])
-            if (l, r) == ("self.begin", "self.end") and isinstance(op, ast.GtE) or (l, r) == ("self.end", "self.begin") and isinstance(op, ast.LtE):
-                guard = st
-    ctx.check(guard is not None, f.fq, "if self.begin >= self.end: ... return", f.where, "empty bars return early, so begin < end when the edges are computed",
-              "Bar: the early return for begin >= end is gone: with begin > end the prefix is longer than the body and the line exceeds the width")
-    if guard is not None:
-        ys = [x for x in ast.walk(guard) if isinstance(x, ast.Call) and norm(x.func) == "Segment" and x.args]
-        ok = len(ys) == 1 and isinstance(ys[0].args[0], ast.BinOp) and isinstance(ys[0].args[0].op, ast.Mult) and {norm(ys[0].args[0].left), norm(ys[0].args[0].right)} == {"' '", "width"}
-        ctx.check(ok, f.fq, short(ys[0]) if ys else "?", f.where, "the empty bar is exactly `width` spaces", "Bar: the empty bar is not ' ' * width")
-
+        n_paths += 1
+        text = ys[0].args[0]
+        empty = consistent(p_, {"self.begin < self.end": False})
+        nonempty = consistent(p_, {"self.begin < self.end": True})
+        if empty and nonempty:
+            ctx.violation(f.fq, show(p_)[:200], f.where, "Bar: a path emits the bar without deciding begin >= end: with begin > end the prefix is longer than the body and the line exceeds the width")
+            continue
+        if empty:
+            ok = isinstance(text, ast.BinOp) and isinstance(text.op, ast.Mult) and {norm(text.left), norm(text.right)} == {"' '", "width"}
+            ctx.check(ok, f.fq, norm(text)[:120], f.where, "the empty bar is exactly `width` spaces", "Bar: the empty bar is not ' ' * width")
+            continue
+        items = flat(text)
+        k = [i for i, it in enumerate(items) if isinstance(it, ast.Subscript) and isinstance(it.slice, ast.Slice)]
+        if len(k) != 1 or k[0] == 0 or k[0] != len(items) - 2:
+            ctx.violation(f.fq, norm(text)[:160], f.where, "Bar emits a line that is not prefix + body[len(prefix):] + padding: its length is not `width` cells")
+            continue
+        pre, sub, suf = items[: k[0]], items[k[0]], items[-1]
+        ptxt = " + ".join(norm(x) for x in pre)
+        lower = sub.slice.lower
+        ok_slice = sub.slice.upper is None and sub.slice.step is None and isinstance(lower, ast.Call) and norm(lower.func) == "len" and len(lower.args) == 1 and flat(lower.args[0]) and " + ".join(norm(x) for x in flat(lower.args[0])) == ptxt
+        body_parts = flat(sub.value)
+        btxt = " + ".join(norm(x) for x in body_parts)
+        ok_suf = (isinstance(suf, ast.BinOp) and isinstance(suf.op, ast.Mult) and isinstance(suf.left, ast.Constant) and suf.left.value == " " and isinstance(suf.right, ast.BinOp) and isinstance(suf.right.op, ast.Sub)
+                  and norm(suf.right.left) == "width" and isinstance(suf.right.right, ast.Call) and norm(suf.right.right.func) == "len" and " + ".join(norm(x) for x in flat(suf.right.right.args[0])) == btxt)
+        ctx.check(ok_slice and ok_suf, f.fq, norm(text)[:200], f.where, "emitted text = P + B[len(P):] + ' ' * (width - len(B)): len(P) + max(0, len(B) - len(P)) + (width - len(B))",
+                  "Bar emits a line that is not prefix + body[len(prefix):] + ' ' * (width - len(body)): the line is not exactly `width` cells")
+        Xp, why_p = analyse_string(pre, facts)
+        Xb, why_b = analyse_string(body_parts, facts)
+        ctx.check(why_p is None, f.fq, ptxt[:160], f.where, "prefix is ceil(p / 8) one-cell glyphs", f"Bar: the prefix string is not `glyph * (p // 8)` extended by exactly one one-cell glyph when p % 8 is non-zero ({why_p}): its cell length is no longer ceil(p/8)")
+        ctx.check(why_b is None, f.fq, btxt[:160], f.where, "body is ceil(b / 8) one-cell glyphs", f"Bar: the body string is not `glyph * (b // 8)` extended by exactly one one-cell glyph when b % 8 is non-zero ({why_b}): its cell length is no longer ceil(b/8)")
+        if Xp is not None and Xb is not None:
+            tp, tb = edge_template(Xp), edge_template(Xb)
+            ctx.check(tp is not None and tp[1] == "begin", f.fq, norm(Xp), f.where, "begin edge = rounding(width * 8 * begin / size)", f"Bar: the begin edge `{norm(Xp)}` is not a rounding of width * 8 * begin / size - the number of eighths is no longer monotone in the edge / bounded by 8 * width, so the bar can exceed its width")
+            ctx.check(tb is not None and tb[1] == "end", f.fq, norm(Xb), f.where, "end edge = rounding(width * 8 * end / size), at most 8 * width when end <= size", f"Bar: the end edge `{norm(Xb)}` is not a rounding of width * 8 * end / size - the body can be longer than the width")
+            if tp and tb:
+                ctx.check(tp[0] == tb[0], f.fq, f"{norm(Xp)} / {norm(Xb)}", f.where, f"both edges use `{tp[0]}`",
+                          f"the begin edge is computed as `{norm(Xp)}` but the end edge as `{norm(Xb)}`: with different rounding the begin can land past the end, the prefix is then longer than the body and the emitted line is one cell wider than the bar's width")
+                templates.add((tp[0], tb[0]))
+    ctx.floor(n_paths, 3, "paths through Bar.__rich_console__")
     init = ctx.repo.fn("bar:Bar.__init__")
     ia = {norm(x.targets[0]): x.value for x in walk_local(init.node) if isinstance(x, ast.Assign) and len(x.targets) == 1}
 
@@ -469,39 +447,6 @@ def r8_10(ctx):
         return isinstance(v, ast.Call) and norm(v.func) == fn and sorted(norm(z) for z in v.args) == sorted([a, b])
     ctx.check(clamp(ia.get("self.begin"), "max", "begin", "0"), init.fq, "self.begin = max(begin, 0)", init.where, "begin >= 0", "Bar.__init__ no longer clamps begin to >= 0: a negative begin gives a negative number of eighths")
     ctx.check(clamp(ia.get("self.end"), "min", "end", "size"), init.fq, "self.end = min(end, size)", init.where, "end <= size, so the end edge is at most 8 * width eighths", "Bar.__init__ no longer clamps end to <= size: the body can be longer than the width")
-
-    w = single("width")
-    ctx.check(w is not None and isinstance(w, ast.Call) and norm(w.func) == "min" and any(norm(z) == "options.max_width" for z in w.args), f.fq, norm(w) if w is not None else "?", f.where, "bar width capped by options.max_width", "Bar's width is not min(..., options.max_width)")
-
-    # emitted text length
-    if len(strings) == 2:
-        P, B = strings["prefix"], strings["body"]
-
-        def L(e):
-            """symbolic length: list of (kind, Lin) terms; kind 'lin' or 'max0'"""
-            if isinstance(e, ast.BinOp) and isinstance(e.op, ast.Add):
-                a, b = L(e.left), L(e.right)
-                return None if a is None or b is None else a + b
-            if isinstance(e, ast.Name) and e.id in (P, B):
-                return [("lin", {f"len({e.id})": 1})]
-            if isinstance(e, ast.Name) and single(e.id) is not None:
-                return L(single(e.id))
-            if isinstance(e, ast.Subscript) and isinstance(e.slice, ast.Slice) and e.slice.upper is None and e.slice.step is None and e.slice.lower is not None and isinstance(e.value, ast.Name) and e.value.id in (P, B):
-                return [("max0", _add({f"len({e.value.id})": 1}, lin(e.slice.lower), -1))]
-            if isinstance(e, ast.BinOp) and isinstance(e.op, ast.Mult):
-                for s_, n_ in ((e.left, e.right), (e.right, e.left)):
-                    if isinstance(s_, ast.Constant) and isinstance(s_.value, str) and len(s_.value) == 1 and cw(s_.value) == 1:
-                        return [("max0", lin(n_))]
-            return None
-
-        segs = [x for st in f.node.body if not isinstance(st, ast.If) for x in ast.walk(st) if isinstance(x, ast.Call) and norm(x.func) == "Segment" and x.args]
-        if len(segs) != 1:
-            raise AnchorVanished("Bar.__rich_console__: expected one Segment(...) emission after the early exit")
-        terms = L(segs[0].args[0])
-        want = sorted([("lin", show({f"len({P})": 1})), ("max0", show({f"len({B})": 1, f"len({P})": -1})), ("max0", show({"width": 1, f"len({B})": -1}))])
-        got = sorted((k, show(v)) for k, v in terms) if terms is not None else None
-        ctx.check(got == want, f.fq, short(segs[0].args[0]), f.where, f"emitted length = len({P}) + max(0, len({B}) - len({P})) + max(0, width - len({B})) = width",
-                  f"Bar emits `{short(segs[0].args[0])}` whose length is {got}, not len(prefix) + max(0, len(body) - len(prefix)) + (width - len(body)): the line is not exactly `width` cells")
 
 
 RULES = [r8_3, r8_4, r8_5, r8_6, r8_7, r8_8, r8_9, r8_10]
